@@ -22,9 +22,11 @@ theorem sha256_streaming_conforms (chunks : List Bytes) (hlen : 8 * chunks.flatt
 /-- the RFC 6234 streaming code (one model for sha224-256.c and sha384-512.c: block buffer, Message_Block_Index,
     length counter with overflow test, the two padding cases) = the Merkle–Damgård construction of FIPS 180-4
     over the concatenation of the chunks, for every parameter set with room for the length field, every
-    chunking and every length the counter can hold -/
+    chunking and every length for which the AddLength test of the implementation stays silent (`Safe`: below 2^64 bits
+    for sha224-256.c; below 2^96 bits for sha384-512.c as compiled, whose test `Length[3] == 0 && Length[2] == 0 &&
+    Length[1] == 0 && Length[0] < 8` also fires at multiples of 2^96 bits) -/
 theorem sha_streaming_generic {W : Type} (P : ShaStream.Params W) (hlb : P.lenBytes + 1 ≤ P.blockSize)
-    (chunks : List Bytes) (hlen : 8 * chunks.flatten.length < 2 ^ (8 * P.lenBytes)) :
+    (chunks : List Bytes) (hlen : Relic.Lemmas.ShaStream.Safe P chunks.flatten.length) :
     ShaStream.run P chunks =
       some ((P.digest (Spec.MD.hash P.blockSize P.lenBytes P.compress P.h0 chunks.flatten)).take P.hashSize) :=
   Relic.Lemmas.ShaStream.run_eq P hlb chunks hlen
@@ -34,15 +36,21 @@ theorem sha224_streaming_conforms (chunks : List Bytes) (hlen : 8 * chunks.flatt
     ShaStream.run ShaStream.sha224P chunks = some (Spec.Sha256.sha224 chunks.flatten) :=
   Relic.Lemmas.ShaStream.sha224_streaming chunks hlen
 
-/-- streaming SHA-384 (128-byte blocks, 128-bit length) = FIPS 180-4 for every chunking -/
-theorem sha384_streaming_conforms (chunks : List Bytes) (hlen : 8 * chunks.flatten.length < 2 ^ 128) :
+/-- streaming SHA-384 (128-byte blocks, 128-bit length) = FIPS 180-4 for every chunking; the bound is the first length
+    at which the implementation's own counter test fires (2^96 bits, see `sha512_refuses_at_2_96`) -/
+theorem sha384_streaming_conforms (chunks : List Bytes) (hlen : 8 * chunks.flatten.length < 2 ^ 96) :
     ShaStream.run ShaStream.sha384P chunks = some (Spec.Sha512.sha384 chunks.flatten) :=
   Relic.Lemmas.ShaStream.sha384_streaming chunks hlen
 
 /-- streaming SHA-512 = FIPS 180-4 for every chunking -/
-theorem sha512_streaming_conforms (chunks : List Bytes) (hlen : 8 * chunks.flatten.length < 2 ^ 128) :
+theorem sha512_streaming_conforms (chunks : List Bytes) (hlen : 8 * chunks.flatten.length < 2 ^ 96) :
     ShaStream.run ShaStream.sha512P chunks = some (Spec.Sha512.sha512 chunks.flatten) :=
   Relic.Lemmas.ShaStream.sha512_streaming chunks hlen
+
+/-- the implementation (as compiled) refuses a message whose bit length reaches 2^96 although the 128-bit counter of
+    FIPS 180-4 has not overflowed: the counter test of SHA384_512AddLength is `true` at 2^96 -/
+theorem sha512_refuses_at_2_96 : ShaStream.corrupt128w (2 ^ 96) = true ∧ ShaStream.corrupt128w (2 ^ 96 - 8) = false ∧
+    ShaStream.corrupt64 0 = true := by decide
 
 /-- the parametric model instantiated at SHA-256 agrees with the dedicated SHA-256 model of round 1 -/
 theorem sha256_streaming_generic_conforms (chunks : List Bytes) (hlen : 8 * chunks.flatten.length < 2 ^ 64) :
@@ -110,7 +118,7 @@ theorem xmd_sha224_conforms (n : Nat) (inp dst : Bytes) (hlen : 8 * (inp.length 
   have hcs' : cs.flatten.length ≤ 64 + inp.length + 28 + 259 := hcs
   exact Relic.Lemmas.ShaStream.sha224_streaming cs (by omega)
 
-theorem xmd_sha384_conforms (n : Nat) (inp dst : Bytes) (hlen : 8 * (inp.length + 1000) < 2 ^ 128) :
+theorem xmd_sha384_conforms (n : Nat) (inp dst : Bytes) (hlen : 8 * (inp.length + 1000) < 2 ^ 96) :
     Md.mdXmd Md.sha384Stream n inp dst
       = Mac.expandMessageXmd { h := Spec.Sha512.sha384, outLen := 48, blockLen := 128 } inp dst n := by
   apply mdXmd_eq Md.sha384Stream { h := Spec.Sha512.sha384, outLen := 48, blockLen := 128 } n inp dst
@@ -119,7 +127,7 @@ theorem xmd_sha384_conforms (n : Nat) (inp dst : Bytes) (hlen : 8 * (inp.length 
   have hcs' : cs.flatten.length ≤ 128 + inp.length + 48 + 259 := hcs
   exact Relic.Lemmas.ShaStream.sha384_streaming cs (by omega)
 
-theorem xmd_sha512_conforms (n : Nat) (inp dst : Bytes) (hlen : 8 * (inp.length + 1000) < 2 ^ 128) :
+theorem xmd_sha512_conforms (n : Nat) (inp dst : Bytes) (hlen : 8 * (inp.length + 1000) < 2 ^ 96) :
     Md.mdXmd Md.sha512Stream n inp dst
       = Mac.expandMessageXmd { h := Spec.Sha512.sha512, outLen := 64, blockLen := 128 } inp dst n := by
   apply mdXmd_eq Md.sha512Stream { h := Spec.Sha512.sha512, outLen := 64, blockLen := 128 } n inp dst
